@@ -72,7 +72,8 @@ def canon_key(x):
 class Sem:
     """semantics description shared by the reference and the real semantics object"""
 
-    def __init__(self, kind, rulenames, target=None, exc=None, named=(), shapes=None, flavor='plain'):
+    def __init__(self, kind, rulenames, target=None, exc=None, named=(), shapes=None, flavor='plain', listers=()):
+        self.listers = set(listers)   # 'listing': the rules whose action returns a plain list (prefix rewriting [op, left, right] of left-recursive rules)
         self.flavor = flavor        # plain | unhashable (defines __eq__ only, like a plain @dataclass) | equal (every instance ==, same hash: a frozen dataclass) | falsy (__len__ is 0)
         self.kind = kind            # identity | tagging | default_only | mixed | fail_on | raise_on
         self.rulenames = rulenames
@@ -96,6 +97,9 @@ class Sem:
                 self.raised = EXC[self.exc]()
                 raise self.raised
             raise RefAbort()
+        if k == 'listing':
+            # a plain list is a value like any other: it must stay ONE operand when the left-recursive rule takes it as its seed
+            return ['L', rule, ast] if rule in self.listers else ('T', rule, ast)
         if k == 'tagging':
             return ('T', rule, ast, tuple(params), tuple(sorted(kwparams.items())))  # a tuple: lists returned by actions are spliced (F-C01-a)
         return ast
@@ -164,7 +168,7 @@ class Sem:
         return actions
 
     def describe(self):
-        return dict(kind=self.kind, target=self.target, exc=self.exc, named=sorted(self.named), flavor=self.flavor)
+        return dict(kind=self.kind, target=self.target, exc=self.exc, named=sorted(self.named), flavor=self.flavor, listers=sorted(self.listers))
 
 
 class RefAbort(Exception):
@@ -213,7 +217,7 @@ def check(rules, ruleinfo, start, text, semd, cache=None, history=None, lr=False
         if cache is not None:
             cache.update(model=model, cls=cls)
     # reference
-    sem = Sem(semd['kind'], names, target, semd.get('exc'), semd.get('named', ()), semd.get('shapes'), semd.get('flavor', 'plain'))
+    sem = Sem(semd['kind'], names, target, semd.get('exc'), semd.get('named', ()), semd.get('shapes'), semd.get('flavor', 'plain'), semd.get('listers', ()))
     rlog = []
     nomemo = {n for n in names if 'nomemo' in (ruleinfo.get(n, {}).get('decorators') or ())}
     ref = Ref(rd, text, actions=sem.ref_actions(rlog))
@@ -258,7 +262,7 @@ def check(rules, ruleinfo, start, text, semd, cache=None, history=None, lr=False
                     if cache is None:
                         for ptext, psemd in (history or []):     # replay: the earlier parses of the case, with their semantics objects
                             psem = Sem(psemd['kind'], names, tuple(psemd['target']) if psemd.get('target') else None, psemd.get('exc'),
-                                       psemd.get('named', ()), psemd.get('shapes'), psemd.get('flavor', 'plain'))
+                                       psemd.get('named', ()), psemd.get('shapes'), psemd.get('flavor', 'plain'), psemd.get('listers', ()))
                             _model_parse(model, ptext, psem.make_object([]))
                     t = _model_parse(model, text, semobj)
                 else:
@@ -269,7 +273,7 @@ def check(rules, ruleinfo, start, text, semd, cache=None, history=None, lr=False
                         for ptext, psemd in (history or []):     # replay: re-create the history on a fresh instance
                             plog = []
                             psem = Sem(psemd['kind'], names, tuple(psemd['target']) if psemd.get('target') else None, psemd.get('exc'),
-                                       psemd.get('named', ()), psemd.get('shapes'), psemd.get('flavor', 'plain'))
+                                       psemd.get('named', ()), psemd.get('shapes'), psemd.get('flavor', 'plain'), psemd.get('listers', ()))
                             _parse_gen(inst, ptext, psem.make_object(plog))
                     t = _parse_gen(inst, text, semobj)
         except CaseTimeout:
@@ -400,7 +404,10 @@ def make_lr_case(rnd):
     spec = lrgen.gen_spec(rnd, shapes=('direct', 'named', 'optpref', 'split'))   # aliased shapes are C03's (finding F-C03-a)
     rules = lrgen.level_rules(spec)
     inputs = [lrgen.gen_input(rnd, spec, rnd.choice([3, 5, 7])) for _ in range(5)]
-    return rules, {}, lrgen.start_rule(spec), inputs
+    # left-recursive leaders that never stand first in another rule's multi-element sequence (there a list value is spliced: finding F-C01-a)
+    lv = spec['levels']
+    listers = [l['rule'] for i, l in enumerate(lv) if l['kind'] == 'left' and l.get('shape') in ('direct', 'optpref') and (i == 0 or lv[i - 1]['kind'] != 'right')]
+    return rules, {'__listers__': listers}, lrgen.start_rule(spec), inputs
 
 
 def run_shard(sh, n):
@@ -408,8 +415,10 @@ def run_shard(sh, n):
         reset_tatsu_state()
         r0 = rnd.random()
         lr = r0 < 0.15
+        listers = []
         if lr:
             rules, ruleinfo, start, lr_inputs = make_lr_case(rnd)
+            listers = ruleinfo.pop('__listers__', [])
             fixed_inputs = None
         elif r0 < 0.2:
             rules, ruleinfo, start, fixed_inputs = make_scalar_case(rnd)
@@ -425,9 +434,9 @@ def run_shard(sh, n):
                 # a plain reference run to pick predicate targets from
                 plain = Ref(rule_dicts(rules, ruleinfo), text)
                 plain.parse(start)
-                kind = rnd.choice(['identity', 'tagging', 'tagging', 'default_only', 'mixed', 'fail_on', 'fail_on', 'raise_on', 'raise_on'])
+                kind = rnd.choice(['identity', 'tagging', 'tagging', 'default_only', 'mixed', 'fail_on', 'fail_on', 'raise_on', 'raise_on'] + (['listing'] * 3 if listers else []))
                 semd = dict(kind=kind, target=None, exc=None, named=[nm for nm in names if rnd.random() < 0.5], shapes={},
-                            flavor=rnd.choice(['plain', 'plain', 'unhashable', 'equal', 'falsy']))
+                            flavor=rnd.choice(['plain', 'plain', 'unhashable', 'equal', 'falsy']), listers=listers if kind == 'listing' else [])
                 for nm in names:
                     np_ = len(ruleinfo.get(nm, {}).get('params') or ())
                     opts = ['A', 'A', 'D'] + (['B'] if np_ >= 1 else []) + (['C'] if np_ == 2 else [])
